@@ -69,7 +69,8 @@ UNIVERSES = [
     },
 ]
 
-HEADER = "import { Option } from std.option;\nimport { Result } from std.result;\nimport { Pair, Triple } from std.tuples;\n"
+HEADER = ("import { Option } from std.option;\nimport { Result } from std.result;\nimport { Pair, Triple } from std.tuples;\n"
+          "class Wr { function <T> id(t: T): T = t  function inc(x: int): int = x + 1 }\n")
 
 # patterns are tuples: ("w",) wildcard | ("v", name) variable | ("c", variant, [pats]) |
 #                      ("s", [pats]) struct/tuple positional | ("o", [pats]) or
@@ -347,6 +348,14 @@ def build_cases(U, tier, rng):
             pairs = pairs[:900]
         for a, b in pairs:
             cases.append(("match", t, [a, b]))
+        # the same constructs as an argument of a call inside a generic call (checked in the checker's synthesis
+        # mode first): the analysis must not depend on where the construct stands
+        for p in P:
+            cases.append(("match@arg", t, [p]))
+            cases.append(("iflet@arg", t, [p]))
+            cases.append(("let@arg", t, [p]))
+        for a, b in pairs[:150 if tier == "quick" else 1500]:
+            cases.append(("match@arg", t, [a, b]))
         n3 = 250 if tier == "quick" else 4000
         for _ in range(n3):
             cases.append(("match", t, [rng.choice(P) for _ in range(3)]))
@@ -363,6 +372,7 @@ def render_module(U, cases):
     for i, (form, t, ps) in enumerate(cases):
         src_t = (U["enums"].get(t) or U["structs"].get(t) or U["tuples"].get(t))[0]
         cnt = [i]
+        form, _, place = form.partition("@")
         if form == "match":
             arms = ", ".join("%s -> %d" % (show(U, t, with_vars(p, cnt) if p[0] != "o" else p, None), k) for k, p in enumerate(ps))
             body = "match v { %s }" % arms
@@ -370,6 +380,8 @@ def render_module(U, cases):
             body = "if let %s = v { 0 } else { 1 }" % show(U, t, ps[0], None)
         else:
             body = "{ let %s = v; 0 }" % show(U, t, ps[0], None)
+        if place == "arg":
+            body = "Wr.id(Wr.inc(%s))" % body
         lines.append("  function f%d(v: %s): int = %s" % (i, src_t, body))
         line_of[base + len(lines) - 1] = i
     lines.append("}")
@@ -424,6 +436,7 @@ def run(res, tier, sc, drv):
                 by_fn.setdefault(line_of[line], []).append(msg)
             for i, (form, t, ps) in enumerate(chunk):
                 total += 1
+                form = form.partition("@")[0]
                 msgs = by_fn.get(i, [])
                 v = z3.Const("v", orc.sort(t))
                 escapes = orc.check(*[z3.Not(orc.matches(t, p, v)) for p in ps])   # sat: some value escapes
@@ -493,7 +506,7 @@ def run(res, tier, sc, drv):
         "distinct_nontrivial": len(nontrivial),
         "rule": "per universe and scrutinee type: every pattern of constructor depth <= 2 (capped at 60/120 per type, cap seeded) as a "
                 "single-arm match, if-let and destructuring let; every ordered pair (quick: <= 900 seeded pairs per type when more); "
-                "seeded lists of 3 (and 4 in thorough). distinct = distinct (universe, form, type, pattern list).",
+                "seeded lists of 3 (and 4 in thorough); every single pattern and the first 150 (1500) pairs again as an argument of a call inside a generic call. distinct = distinct (universe, form, type, pattern list).",
         "exhaustive": False,
         "universes": [u["name"] for u in UNIVERSES],
         "oracle_queries": oq,
